@@ -18,22 +18,25 @@ import (
 // CaseC06 : date range selection is exact, inclusive and independent of layout
 // and time zone. Every oracle is metamorphic: the program against itself.
 type CaseC06 struct {
-	CLI    CLIBase   `json:"cli"`
-	Base   string    `json:"base"` // first day of the log window, 2006-01-02 (chosen around DST changes, year end, leap day)
-	Kind   string    `json:"kind"` // "window", "grid", "keyword", "position", "summary", "zone"
-	ISO    bool      `json:"iso"`
-	Zone   string    `json:"zone"`
-	Zone2  string    `json:"zone2"`
-	Clock  int64     `json:"clock"`
-	Clock2 int64     `json:"clock2"`
-	Today  int       `json:"today_off"` // --today = baseDay + Today
-	B      *int      `json:"b,omitempty"`
-	E      *int      `json:"e,omitempty"`
-	Pos    string    `json:"pos"` // "global", "local", "both"
-	Kw     string    `json:"kw,omitempty"`
-	KwSide string    `json:"kw_side,omitempty"` // "b" or "e"
-	SumKw  string    `json:"summary_kw,omitempty"`
-	Order  OrderPlan `json:"order"`
+	CLI  CLIBase `json:"cli"`
+	Base string  `json:"base"` // first day of the log window, 2006-01-02 (chosen around DST changes, year end, leap day)
+	Kind string  `json:"kind"` // "window", "grid", "keyword", "position", "summary", "zone"
+	ISO  bool    `json:"iso"`
+	// AltLayout: "" | "unpadded" (--date-format 2006/1/2, headings written with leading zeros) | "monthname"
+	// (--date-format "2 Jan 2006", headings like "05 jan 2021"): the headings parse but are not in canonical form
+	AltLayout string    `json:"alt_layout,omitempty"`
+	Zone      string    `json:"zone"`
+	Zone2     string    `json:"zone2"`
+	Clock     int64     `json:"clock"`
+	Clock2    int64     `json:"clock2"`
+	Today     int       `json:"today_off"` // --today = baseDay + Today
+	B         *int      `json:"b,omitempty"`
+	E         *int      `json:"e,omitempty"`
+	Pos       string    `json:"pos"` // "global", "local", "both"
+	Kw        string    `json:"kw,omitempty"`
+	KwSide    string    `json:"kw_side,omitempty"` // "b" or "e"
+	SumKw     string    `json:"summary_kw,omitempty"`
+	Order     OrderPlan `json:"order"`
 }
 
 var zonePool = []string{"UTC", "America/Los_Angeles", "America/New_York", "Asia/Tokyo", "Pacific/Kiritimati", "Pacific/Pago_Pago", "Europe/Sofia", "Europe/Berlin", "FIXED:+05:30", "FIXED:-09:30", "Australia/Lord_Howe"}
@@ -74,11 +77,21 @@ func genC06(thorough bool) func(t *rapid.T) Case {
 		layout := defaultDateLayout
 		if c.ISO {
 			layout = "2006-01-02"
+		} else if rapid.IntRange(0, 4).Draw(t, "alt_layout") == 4 {
+			c.AltLayout = rapid.SampledFrom([]string{"unpadded", "monthname"}).Draw(t, "alt_layout_kind")
+			if c.AltLayout == "monthname" {
+				layout = "02 Jan 2006" // what the headings are written in (lower-cased below)
+			}
 		}
 		c.Base = rapid.SampledFrom(basePool).Draw(t, "base_day")
 		c.CLI = genCLIBase(t, baseOpts{shapes: names, book: BookOpts{MaxRecipes: 4}, log: LogOpts{MaxDays: 8, MinDays: 1, Window: c06Window, Layout: layout, Base: c.base(),
 			Chrono: c.Kind != "grid" && rapid.IntRange(0, 5).Draw(t, "chronological_diary") == 5}})
-		c.CLI.Inv.Date = c.base().AddDate(0, 0, rapid.IntRange(-1, c06Window).Draw(t, "summary_off")).Format(layout)
+		if c.AltLayout == "monthname" {
+			for i := range c.CLI.Log {
+				c.CLI.Log[i].Head = strings.ToLower(c.CLI.Log[i].Head)
+			}
+		}
+		c.CLI.Inv.Date = c.base().AddDate(0, 0, rapid.IntRange(-1, c06Window).Draw(t, "summary_off")).Format(c.layout())
 		c.Zone = rapid.SampledFrom(zonePool).Draw(t, "zone")
 		c.Zone2 = rapid.SampledFrom(zonePool).Draw(t, "zone2")
 		c.Clock = rapid.SampledFrom(clockPool).Draw(t, "clock")
@@ -133,9 +146,15 @@ var dstTransitions = []dstTransition{
 	{"Australia/Lord_Howe", "2021-04-03"}, {"Australia/Lord_Howe", "2021-10-02"},
 }
 
+// layout is the date format the program is told to use (and the canonical form of its dates).
 func (c *CaseC06) layout() string {
-	if c.ISO {
+	switch {
+	case c.ISO:
 		return "2006-01-02"
+	case c.AltLayout == "unpadded":
+		return "2006/1/2"
+	case c.AltLayout == "monthname":
+		return "2 Jan 2006"
 	}
 	return defaultDateLayout
 }
@@ -157,8 +176,8 @@ func (c *CaseC06) invoke(blocks []Block, b, e *string, pos string, zone string, 
 	base.Log = blocks
 	iv := base.Inv
 	g := append([]string{}, iv.Globals...)
-	if c.ISO {
-		g = append(g, "--date-format", "2006-01-02")
+	if c.ISO || c.AltLayout != "" {
+		g = append(g, "--date-format", c.layout())
 	}
 	g = append(g, "--today", c.day(c.Today))
 	var l []string
@@ -341,8 +360,10 @@ func (c *CaseC06) Eval(ob *Obs) []Finding {
 		c2 := *c
 		c2.CLI.Inv.Date = d
 		var only []Block
+		tt, terr := time.Parse(c.layout(), target)
 		for _, bl := range log {
-			if bl.Head == target {
+			// (by date, not by spelling: a heading may be written in a non-canonical form of the layout)
+			if bt, err := time.Parse(c.layout(), bl.Head); err == nil && terr == nil && bt.Equal(tt) {
 				only = append(only, bl)
 			}
 		}
